@@ -229,6 +229,10 @@ type CFList struct {
 func (l CFList) MarshalBinary() ([]byte, error) {
 	out := make([]byte, 16)
 
+	if l.Payload == nil {
+		return nil, errors.New("lorawan: Payload must not be nil")
+	}
+
 	b, err := l.Payload.MarshalBinary()
 	if err != nil {
 		return nil, err
